@@ -11,8 +11,8 @@ RULE = ("scenario = initial on-disk logs of 4 partitions (transactions of 1..3 e
         "+ one subscription (kind cycles all-partitions / one partition / several partitions / one stream / several streams; start Latest, AllPartitions(n)/AllStreams(n), explicit map with or without "
         "fallback, positions 0 / watermark / watermark-1 / end / beyond / random; window cycles 1, 2, 10, sometimes 100) + a schedule of 3..20 steps before/after Subscribe drawn from "
         "{direct unconfirmed append, ConfirmTransaction (watermark moves, nothing broadcast), ExecuteTransaction (append+confirm+broadcast), ack, release one history pause point, release all, flush} "
-        "and a closing sequence (confirm, one write per partition, flush). 500 such scenarios (quick) / 4000 (thorough); plus 100 / 800 'batches' scenarios (a 52..125-transaction partition so that the "
-        "history read takes several batches, the watermark / log / acknowledgements change at the pause point between batches) and 8 / 40 'lag' scenarios (> 1024 events are broadcast while the "
+        "and a closing sequence (confirm, one write per partition, flush). 300 such scenarios (quick) / 4000 (thorough); plus 60 / 800 'batches' scenarios (a 52..125-transaction partition so that the "
+        "history read takes several batches, the watermark / log / acknowledgements change at the pause point between batches) and 6 / 40 'lag' scenarios (> 1024 events are broadcast while the "
         "subscription waits at a pause point or for an acknowledgement: Lagged -> history re-read). The subscription task runs freely between steps; the harness waits after each step until the "
         "task is provably blocked (hook log). Every scenario is also run through the extracted model (same annotated schedule) and the outputs must be equal. "
         "A case is non-trivial when at least one record was delivered. distinct = distinct case strings.")
@@ -160,6 +160,77 @@ def nontrivial(c, o):
     return bool(ob and ob["ds"])
 def shrink_key(c): return (len(c), c)
 def agree(c, o, e): return o == e
+
+# ------------------------------------------------------------------ extraction cross-check inside Coq
+def _coq_sids(p, ss): return "[" + "; ".join(str(p * SPP + int(d)) for d in ss) + "]"
+def _coq_from(f):
+    if f[0] == "L": return "FLatest"
+    if f[0] == "A": return f"(FAll {f[1]})"
+    return "(FMap [" + "; ".join(f"({k}, {v})" for k, v in f[1].items()) + "] " + ("None" if f[2] is None else f"(Some {f[2]})") + ")"
+def _coq_matcher(spec):
+    t = spec.split("/")
+    optn = lambda x: "None" if x == "-" else f"(Some {int(x)})"
+    ids = lambda x: "[" + "; ".join(str(int(y)) for y in x.split(".")) + "]"
+    if t[0] == "all": return f"(MAllP {_coq_from(_from_raw(t[1]))})"
+    if t[0] == "part": return f"(MPart {int(t[1])} {optn(t[2])})"
+    if t[0] == "parts": return f"(MParts {ids(t[1])} {_coq_from(_from_raw(t[2]))})"
+    if t[0] == "stream": return f"(MStream {int(t[1])} {optn(t[2])})"
+    return f"(MStreams {ids(t[1])} {_coq_from(_from_raw(t[2]))})"
+def _from_raw(f):
+    """like _from but keeps duplicate keys in order (the model's association list)"""
+    if f == "L": return ("L",)
+    if f[0] == "A": return ("A", int(f[1:]))
+    m, fb = [], None
+    for kv in f[1:].split(";"):
+        if not kv: continue
+        k, v = kv.split("=")
+        if k == "f": fb = int(v)
+        else: m.append((int(k), int(v)))
+    class L(list):
+        def items(self): return list(self)
+    return ("M", L(m), fb)
+def coq_goal(c, e):
+    if e is None or e.startswith(("BADCASE", "MODEL-EXN", "BCAST", "GATE")): return None
+    ob = _parse_obs(e)
+    if ob is None or len(ob["ds"]) > 120 or len(c) > 1500: return None
+    t = c.split()
+    if t[0] != "c09": return None
+    init = []
+    for p, ps in enumerate(t[2].split("|")):
+        if ps == "-": continue
+        bits = []
+        for tx in ps.split(","):
+            tx, n = _rep(tx)
+            b, st = tx.split(":")
+            bl = [x == "1" for x in b]
+            if len(bl) == 1: bl = bl * len(st)
+            for _ in range(n):
+                init.append(f"OAppend {p} {_coq_sids(p, st)}"); bits += bl
+        w = 0
+        while w < len(bits) and bits[w]: w += 1
+        init.append(f"OAdvance {p} {w}")
+    sub = _sub(t[3])
+    groups = []
+    if t[4] != "-":
+        for st in t[4].split(","):
+            body, _, ann = st.partition("=")
+            if body[0] == "a":
+                p, ss = body[1:].split(":"); groups.append([f"OAppend {int(p)} {_coq_sids(int(p), ss)}"])
+            elif body[0] == "c": groups.append([f"OAdvance {int(body[1:])} {int(ann)}"])
+            elif body[0] == "x":
+                p, ss = body[1:].split(":"); w = int(ann.split("/")[0])
+                groups.append([f"OAppend {int(p)} {_coq_sids(int(p), ss)}", f"OAdvance {int(p)} {w}", f"OBcast {int(p)}"])
+            elif body == "S": groups.append([f"OSubscribe {_coq_matcher(t[3])} {sub['win']}"])
+            elif body[0] == "k": groups.append([f"OAck {int(body[1:])}"])
+            elif body == "h-": continue
+            elif body[0] == "h":
+                k, n = body[1:].split(":")
+                groups.append([f"OHistBatch ({'KS' if sub['stream'] else 'KP'} {int(k)}) {int(n)}"])
+            else: return None
+    want = "[" + "; ".join(f"({d['p']}, {d['seq']}, {d['w']}, {d['cur']})" for d in ob["ds"]) + "]"
+    g = "[" + "; ".join("[" + "; ".join(x) + "]" for x in groups) + "]"
+    return ("(let c := mkSbCfg 4 4 1024 true in let st := sb_script c (300 * 300) (fold_left (sb_step c) [" + "; ".join(init) + f"] (sb_init {'true' if t[1] == '1' else 'false'})) {g} in "
+            "match sb_sub st with Some u => map (fun d => (e_pid (d_ev d), e_seq (d_ev d), d_wm d, d_cur d)) (rev (u_out u)) | None => [] end = " + want + ")%nat")
 
 def distribution(pairs):
     d = {"kind": {}, "window": {}, "end": {}, "lagged": 0, "records": 0, "history_batches": 0, "multi_batch": 0, "watermark_moved_between_batches": 0,
